@@ -43,8 +43,12 @@ ASSUMPTIONS = [
     "exact regime: Fraction coefficients, Poly zero=Fraction(0) on the leaves, Fraction signals, zero=Fraction(0); "
     "where the impl itself injects binary floats (Fraction coefficients formatted as 'p/q' into the exec'd filter "
     "loop, int ** negative int) results are compared within 1e-9 relative to the largest sample",
-    "constant coefficients and integer powers only (Stream coefficients: C06; fractional delays / linearize are "
+    "constant coefficients and integer powers only (Stream coefficients: C06; linearize is modelled and observed "
+    "on integer delays only, where it must be the identity; its float interpolation of fractional delays is "
     "outside the model)",
+    "signal laws (law vectors) are compared in the exact regime only (integer coefficients keep the impl's exec'd "
+    "loop exact on Fraction samples); outputs of single trees in the float regime are compared within "
+    "1e-10 * (sum |impulse response of 1/den|) relative to the largest sample",
     "signal laws are stated for causal filters; a non-causal composite raises ValueError in the impl and in the model",
 ]
 MANIFEST = {
@@ -52,7 +56,7 @@ MANIFEST = {
                  "ring K[T;T⁻¹] for the field laws / substitution / expression trees of any depth, and into K⟦X⟧ "
                  "via C04's A·Y = B·X with unit denominators for the signal laws) + differential tie on expression "
                  "trees, law vectors, ==/!=/hash pairs and Cascade/Parallel lists in the exact Fraction regime",
-    "note": "45 theorems, no pending statement; D2 (__ne__ is `num != and den !=`) and D12 (ParallelFilter.denpoly "
+    "note": "48 theorems, no pending statement; D2 (__ne__ is `num != and den !=`) and D12 (ParallelFilter.denpoly "
             "is the product while numpoly comes from the shortcut sum) recorded as known with "
             "proposed_fixes/D2-filter-ne.diff and proposed_fixes/D12-parallel-denpoly.diff; both are stated in "
             "Lean as theorems about the repaired shape plus a refutation of the shape as coded",
@@ -594,7 +598,12 @@ def impl(c):
             causal = bool(f.is_causal())
         except Exception as ex:
             causal = {"err": err_kind(ex)}
-        return {"num": _terms(f.numpoly), "den": _terms(f.denpoly),
+        try:
+            g = f.linearize()
+            lin = {"num": _terms(g.numpoly), "den": _terms(g.denpoly)}
+        except Exception as ex:
+            lin = {"err": err_kind(ex)}
+        return {"num": _terms(f.numpoly), "den": _terms(f.denpoly), "linearize": lin,
                 "items_num": _items(f.numpoly), "items_den": _items(f.denpoly),
                 "float": _has_float(f.numpoly, f.denpoly), "causal": causal,
                 "out": _out(f, c.get("xs", [])), "branches": list(_BR)}
@@ -708,6 +717,15 @@ def compare(c, io, drv):
             d = _cmp_out(io["out"], m["out"], tol, amp)
             if d:
                 out.append(("model", "call: " + d))
+            li, lm = io["linearize"], m["linearize"]
+            if ("err" in li) != ("err" in lm) or ("err" in li and li["err"] != lm["err"]):
+                out.append(("model", "linearize: impl=%s model=%s" % (json.dumps(li)[:100], json.dumps(lm)[:100])))
+            elif "err" not in li:
+                if not cross_equal(terms_to_dict(li["num"]), terms_to_dict(li["den"]),
+                                   terms_to_dict(lm["num"]), terms_to_dict(lm["den"]), tol):
+                    out.append(("model", "linearize: impl=%s model=%s" % (json.dumps(li)[:100], json.dumps(lm)[:100])))
+                if not cross_equal(terms_to_dict(li["num"]), terms_to_dict(li["den"]), ni, di, tol):
+                    out.append(("spec", "linearize() of a filter with integer delays changed the rational function"))
         if s is not None:
             ns, ds = terms_to_dict(s["num"]), terms_to_dict(s["den"])
             if not cross_equal(ni, di, ns, ds, tol) or not di:
